@@ -454,14 +454,27 @@ ocp.set_der(v, a)
         canons = defaultdict(list)
         for c, meta, args in stage._constraints["control"]:
             (lb,canon,ub), mc = self.constraint_inspector.canon(c)
-            # Constraints are only lumped when they live on the same points:
-            #  same include_first/include_last, same set of next/prev/offset shifts
-            offsets = tuple(sorted(set(stage._offsets[s][1] for s in ca.symvar(canon) if s in stage._offsets)))
-            key = (args["refine"],args["group_refine"],args["include_first"],args["include_last"],offsets)
+            parts = [(lb,canon,ub)]
+            if stage.is_signal(lb) or stage.is_signal(ub):
+                # Bounds that vary along the horizon (e.g. a B-spline parameter) are sampled together with the expression
+                if ca.is_equal(lb, ub, 2):
+                    parts = [(ca.MX.zeros(lb.shape), canon-lb, ca.MX.zeros(lb.shape))]
+                else:
+                    parts = []
+                    inf = ca.MX.inf(canon.shape)
+                    if stage.is_signal(ub): parts.append((-inf, canon-ub, ca.MX.zeros(canon.shape)))
+                    else: parts.append((-inf, canon, ub))
+                    if stage.is_signal(lb): parts.append((ca.MX.zeros(canon.shape), canon-lb, inf))
+                    else: parts.append((lb, canon, inf))
+            for lb,canon,ub in parts:
+                # Constraints are only lumped when they live on the same points:
+                #  same include_first/include_last, same set of next/prev/offset shifts
+                offsets = tuple(sorted(set(stage._offsets[s][1] for s in ca.symvar(canon) if s in stage._offsets)))
+                key = (args["refine"],args["group_refine"],args["include_first"],args["include_last"],offsets)
 
-            lbs[key].append(lb)
-            ubs[key].append(ub)
-            canons[key].append(canon)
+                lbs[key].append(lb)
+                ubs[key].append(ub)
+                canons[key].append(canon)
         
         keys = list(lbs.keys())
 
